@@ -17,6 +17,7 @@ type Edit struct {
 	Path    []Step
 	Prop    *Prop
 	Option  string
+	OptNum  int32 // appendoption: the number written on the option (0 = none)
 	Decl    *Elem
 }
 
@@ -36,6 +37,9 @@ func (e *Edit) Sexp() *Node {
 	case "appendfield":
 		return L("appendfield", N(e.FileIdx), path, e.Prop.Sexp())
 	case "appendoption":
+		if e.OptNum > 0 {
+			return L("appendoption", N(e.FileIdx), path, S(e.Option), N(int(e.OptNum)))
+		}
 		return L("appendoption", N(e.FileIdx), path, S(e.Option))
 	case "appenddecl":
 		return L("appenddecl", N(e.FileIdx), e.Decl.Sexp())
@@ -67,6 +71,13 @@ func DecodeEdits(n *Node) (es []*Edit, err error) {
 			e.FileIdx = a[0].Int()
 			e.Path = decPath(a[1])
 			e.Option = a[2].Str()
+			if len(a) > 3 {
+				v := a[3].Int()
+				if v <= 0 || v > 1<<20 {
+					bad("bad option number")
+				}
+				e.OptNum = int32(v)
+			}
 		case "appenddecl":
 			a := en.expect(k, 2)
 			e.FileIdx = a[0].Int()
@@ -109,6 +120,7 @@ type cursor struct {
 	props  *[]*Prop // plain property list (request, response, topic message, inline object, entity data, summary)
 	oneof  bool     // props belongs to a oneof
 	opts   *[]string
+	nums   *Nums
 }
 
 func elemCursor(e *Elem) cursor {
@@ -169,7 +181,7 @@ func (c cursor) step(s Step) (cursor, bool) {
 		case RInlOneof:
 			return cursor{props: &f.Ref.Props, oneof: true}, true
 		case RInlEnum:
-			return cursor{opts: &f.Ref.Opts}, true
+			return cursor{opts: &f.Ref.Opts, nums: &f.Ref.Nums}, true
 		}
 		return cursor{}, false
 	case "nest":
@@ -235,7 +247,7 @@ func (c cursor) step(s Step) (cursor, bool) {
 		if c.ent == nil {
 			return cursor{}, false
 		}
-		return cursor{opts: &c.ent.Statuses}, true
+		return cursor{opts: &c.ent.Statuses, nums: &c.ent.StatusNums}, true
 	case "event":
 		if c.ent == nil {
 			return cursor{}, false
@@ -317,8 +329,10 @@ func Apply(b *Bundle, pkg string, edits []*Edit) error {
 			switch {
 			case c.enum != nil:
 				c.enum.Opts = append(c.enum.Opts, e.Option)
+				c.enum.Nums = c.enum.Nums.set(e.Option, e.OptNum)
 			case c.opts != nil:
 				*c.opts = append(*c.opts, e.Option)
+				*c.nums = (*c.nums).set(e.Option, e.OptNum)
 			default:
 				return fmt.Errorf("edit %d: path does not name an enum", i)
 			}
@@ -342,6 +356,7 @@ type Container struct {
 	Path    []Step
 	Kind    string // fields | oneof | enum
 	User    bool   // declared by the user as object/oneof/enum/service/topic (not part of an entity)
+	Keys    bool   // a hand-written object annotated as the KEYS part of an entity
 }
 
 // Containers lists every position of package p where an append edit applies.
@@ -370,13 +385,13 @@ func walkProps(fi int, path []Step, props []*Prop, user bool, out *[]Container) 
 		sub := append(append([]Step{}, path...), Step{Kind: "prop", Idx: pi})
 		switch f.Ref.Kind {
 		case RInlObj:
-			*out = append(*out, Container{fi, sub, "fields", user})
+			*out = append(*out, Container{FileIdx: fi, Path: sub, Kind: "fields", User: user})
 			walkProps(fi, sub, f.Ref.Props, user, out)
 		case RInlOneof:
-			*out = append(*out, Container{fi, sub, "oneof", user})
+			*out = append(*out, Container{FileIdx: fi, Path: sub, Kind: "oneof", User: user})
 			walkProps(fi, sub, f.Ref.Props, user, out)
 		case RInlEnum:
-			*out = append(*out, Container{fi, sub, "enum", user})
+			*out = append(*out, Container{FileIdx: fi, Path: sub, Kind: "enum", User: user})
 		}
 	}
 }
@@ -389,22 +404,22 @@ func walkContainers(fi int, path []Step, c cursor, user bool, out *[]Container) 
 		if c.obj.Oneof {
 			kind = "oneof"
 		}
-		*out = append(*out, Container{fi, path, kind, user})
+		*out = append(*out, Container{FileIdx: fi, Path: path, Kind: kind, User: user, Keys: c.obj.PSM != nil && c.obj.PSM.Part == "keys"})
 		walkProps(fi, path, c.obj.Props, user, out)
 		for ni, n := range c.obj.Nested {
 			walkContainers(fi, ext("nest", ni), elemCursor(n), user, out)
 		}
 	case c.enum != nil:
-		*out = append(*out, Container{fi, path, "enum", user})
+		*out = append(*out, Container{FileIdx: fi, Path: path, Kind: "enum", User: user})
 	case c.svc != nil:
 		for mi, m := range c.svc.Methods {
 			mp := ext("method", mi)
 			rq := append(append([]Step{}, mp...), Step{Kind: "req"})
-			*out = append(*out, Container{fi, rq, "fields", user})
+			*out = append(*out, Container{FileIdx: fi, Path: rq, Kind: "fields", User: user})
 			walkProps(fi, rq, m.Req, user, out)
 			if m.HasRes {
 				rs := append(append([]Step{}, mp...), Step{Kind: "res"})
-				*out = append(*out, Container{fi, rs, "fields", user})
+				*out = append(*out, Container{FileIdx: fi, Path: rs, Kind: "fields", User: user})
 				walkProps(fi, rs, m.Res, user, out)
 			}
 		}
@@ -412,7 +427,7 @@ func walkContainers(fi int, path []Step, c cursor, user bool, out *[]Container) 
 		add := func(k string, ms []*TMsg) {
 			for mi, m := range ms {
 				mp := ext(k, mi)
-				*out = append(*out, Container{fi, mp, "fields", user})
+				*out = append(*out, Container{FileIdx: fi, Path: mp, Kind: "fields", User: user})
 				walkProps(fi, mp, m.Props, user, out)
 			}
 		}
@@ -424,9 +439,9 @@ func walkContainers(fi int, path []Step, c cursor, user bool, out *[]Container) 
 		}
 	case c.ent != nil:
 		dp := append(append([]Step{}, path...), Step{Kind: "edata"})
-		*out = append(*out, Container{fi, dp, "fields", false})
+		*out = append(*out, Container{FileIdx: fi, Path: dp, Kind: "fields", User: false})
 		walkProps(fi, dp, c.ent.Data, false, out)
-		*out = append(*out, Container{fi, append(append([]Step{}, path...), Step{Kind: "estatus"}), "enum", false})
+		*out = append(*out, Container{FileIdx: fi, Path: append(append([]Step{}, path...), Step{Kind: "estatus"}), Kind: "enum"})
 		for i, ev := range c.ent.Events {
 			walkContainers(fi, ext("event", i), cursor{obj: ev}, false, out)
 		}
@@ -435,7 +450,7 @@ func walkContainers(fi int, path []Step, c cursor, user bool, out *[]Container) 
 		}
 		for i, sm := range c.ent.Summaries {
 			sp := ext("summary", i)
-			*out = append(*out, Container{fi, sp, "fields", false})
+			*out = append(*out, Container{FileIdx: fi, Path: sp, Kind: "fields", User: false})
 			walkProps(fi, sp, sm.Props, false, out)
 		}
 		for i, n := range c.ent.Nested {
